@@ -1,5 +1,5 @@
 #!/usr/bin/env python3
-"""Runs every check against behaviour-preserving refactorings (agent output under /tmp/wt/<ID>b-out/r*/ or committed
+"""Runs every check against behaviour-preserving refactorings (agent output under 
 under /verif/benign/<ID>-r*/) applied to a scratch copy of /repo.  Every check must stay silent.
 usage: benign_matrix.py SRC_DIR...   each SRC_DIR holds patch.diff"""
 import json, os, re, shutil, subprocess, sys
@@ -8,7 +8,7 @@ V = Path('/verif')
 props = [f'C{i:02d}' for i in range(1, 21)]
 scratch = Path('/var/tmp/verif-benign-matrix'); evd = Path('/var/tmp/verif-benign-evidence')
 out = {}
-for d in map(Path, sys.argv[1:]):
+for d in [Path(a).resolve() for a in sys.argv[1:]]:
     if scratch.exists(): shutil.rmtree(scratch)
     subprocess.check_call(['rsync', '-a', '--exclude', '/target', '--exclude', '.git', '/repo/', str(scratch) + '/'])
     r = subprocess.run(['git', 'apply', '--unsafe-paths', '--directory', str(scratch), str(d / 'patch.diff')], capture_output=True, text=True, cwd='/')
